@@ -674,6 +674,79 @@ let run_ctor id rest =
     with Inner_err -> "err-inner" in
   id ^ " " ^ body
 
+(* ---- HIST: the model has no history; every call is evaluated on its own ---- *)
+let fnv_raw (l : coq_N list) : string =
+  let h = ref 0xcbf29ce484222325L in
+  Stdlib.List.iter (fun b -> h := Int64.mul (Int64.logxor !h (Int64.of_int (int_of_n b))) 0x100000001b3L) l;
+  Printf.sprintf "%016Lx" !h
+
+let hist_call (kind : string) (body : string) : string =
+  let (main, orc) = match Str.bounded_split_delim (Str.regexp_string " |") body 2 with
+    | [a; b] -> (a, Stdlib.String.trim b) | [a] -> (a, "") | _ -> failwith "hist case" in
+  if orc = "ORACLE-PANIC" then "oracle-panic" else
+  match split_on ' ' main with
+  | [cfg; rate; ch; bps; bs; samples] ->
+    let cfg = parse_cfg cfg in
+    let (entf, qf, missing) = parse_oracles (split_on ' ' orc) in
+    let n s = n_of_int (int_of_string s) in
+    let all = parse_samples samples in
+    let frame_only = (kind = "F" && all <> []) in
+    let per = int_of_string bs * int_of_string ch in
+    let smp = if frame_only then take per all else all in
+    let r = Encoder.encode_stream entf qf md5_oracle cfg (n rate) (n ch) (n bps) (n bs) smp in
+    (match r with
+     | Ok s ->
+       (match Component.stream_bytes s with
+        | Ok bytes -> (if frame_only then fnv_raw (drop 42 bytes) else fnv_raw bytes) ^ (if !missing then "ORACLE-MISSING" else "")
+        | Err e -> err_name e
+        | Panic _ -> "panic")
+     | Err e -> if frame_only then "err-frame" else err_name e
+     | Panic _ -> "panic")
+  | _ -> "bad-case"
+
+let run_hist id rest =
+  let bodies = Str.split (Str.regexp_string " ;; ") rest in
+  let hs = Stdlib.List.map (fun b ->
+    match Str.bounded_split (Str.regexp_string " ") b 2 with
+    | [k; body] -> hist_call k body
+    | _ -> "bad-case") bodies in
+  let l = Stdlib.String.concat "," hs in
+  Printf.sprintf "%s seq=%s fresh=%s" id l l
+
+(* ---- SCR: scratch clients on explicit stale contents ---- *)
+let nl s = if s = "-" then [] else Stdlib.List.map n_of_u64_string (split_on ',' s)
+let zl s = if s = "-" then [] else Stdlib.List.map z_of_i64_string (split_on ',' s)
+let fmt_nl l = if l = [] then "-" else Stdlib.String.concat "," (Stdlib.List.map dec_of_n l)
+
+let run_scr id rest =
+  match split_on ' ' rest with
+  | ["RICE"; _se; _nt; sp; sm; warm; maxp; signal] ->
+    let st = { Scratch.fd_errors = []; fd_ps = nl sp; fd_min_ps = nl sm } in
+    (match Scratch.sfind st (parse_samples signal) (n_of_u64_string warm) (n_of_u64_string maxp) with
+     | Ok (st', r) ->
+       Printf.sprintf "%s ok %s %s %s | %s | %s" id (dec_of_n r.Rice.prc_order) (fmt_nl r.Rice.prc_ps) (dec_of_n r.Rice.prc_bits)
+         (fmt_nl st'.Scratch.fd_ps) (fmt_nl st'.Scratch.fd_min_ps)
+     | Err _ -> id ^ " err" | Panic _ -> id ^ " panic")
+  | ["PLANES"; stale; signal] ->
+    let st = Stdlib.List.map (fun x -> Scratch.sv_reset_from_slice (zl x)) (split_on '/' stale) in
+    let planes = Scratch.reset_planes st (parse_samples signal) in
+    let body = Stdlib.List.map (fun p ->
+      Printf.sprintf "%d:%s" (int_of_nat p.Scratch.sv_len) (fmt_z_list (Stdlib.List.concat p.Scratch.sv_inner))) planes in
+    Printf.sprintf "%s ok %s" id (Stdlib.String.concat " " body)
+  | ["CACHE"; reqs] ->
+    let rq = Stdlib.List.map (fun x -> match split_on ':' x with
+      | [a; sz] -> ((if a = "r" then None else Some (n_of_u64_string a)), n_of_u64_string sz) | _ -> failwith "cache req") (split_on ',' reqs) in
+    (* the value of a window is abstract in the model: the computation is the identity on its arguments *)
+    let vals = Scratch.run_cache (fun w sz -> (w, sz)) Scratch.exact_key [] rq in
+    let good = Stdlib.List.length (Stdlib.List.filter (fun (a, b) -> a = b) (Stdlib.List.combine vals rq)) in
+    Printf.sprintf "%s ok %d/%d" id good (Stdlib.List.length rq)
+  | ["KEY"; lo; hi] ->
+    let l = n_of_u64_string lo and h = n_of_u64_string hi in
+    Printf.sprintf "%s ok mismatches=0 n=%s first=%s last=%s rect=%s" id (dec_of_n (BinNat.N.sub h l))
+      (dec_of_n (Scratch.fingerprint (Some l))) (dec_of_n (Scratch.fingerprint (Some (BinNat.N.sub h (n_of_int 1)))))
+      (dec_of_n (Scratch.fingerprint None))
+  | _ -> id ^ " bad-case"
+
 let run_line (line : string) : string =
   match split_on ' ' line with
   | stream :: id :: _ ->
@@ -694,6 +767,8 @@ let run_line (line : string) : string =
        | "PARTRACE" -> run_partrace id rest
        | "API" -> run_api id rest
        | "CTOR" -> run_ctor id rest
+       | "HIST" -> run_hist id rest
+       | "SCR" -> run_scr id rest
        | "RICE" -> run_rice id rest
        | _ -> id ^ " unknown-stream")
      with Stack_overflow -> id ^ " model-stack-overflow")
